@@ -497,6 +497,10 @@ static Str normalizeAddrs0(const Str& in) {
             size_t j = i + 3; while (j < in.size() && isxdigit((unsigned char)in[j])) j++;
             if (j < in.size() && in[j] == '>') { out += "<ADDR>"; i = j + 1; continue; }
         }
+        if (in.compare(i, 6, "&lt;0x") == 0) {      // the same address inside an XML attribute
+            size_t j = i + 6; while (j < in.size() && isxdigit((unsigned char)in[j])) j++;
+            if (in.compare(j, 4, "&gt;") == 0) { out += "<ADDR>"; i = j + 4; continue; }
+        }
         if (in.compare(i, 11, "Alloc num (") == 0) {          // allocation numbers grow over the life of a worker
             size_t j = i + 11; while (j < in.size() && isdigit((unsigned char)in[j])) j++;
             if (j < in.size() && in[j] == ')') { out += "Alloc num (N)"; i = j + 1; continue; }
